@@ -88,7 +88,8 @@ def run(ck):
             e = float(np.linalg.norm(kl - np.array(loading)) / max(np.linalg.norm(loading), 1e-300))
             note(f"exact combination: fit error (order {order})", e)
             if not (e <= 2e-2):
-                ck.fail_case({**sig, "clause": "fitted isotherm does not match an exact non-negative combination of kernel isotherms"}, {**detail, "relative_l2_error": e})
+                ck.fail_case({**sig, "clause": "fitted isotherm does not match an exact non-negative combination of kernel isotherms", "dense_combination": bool(np.count_nonzero(weights) > 20)},
+                             {**detail, "relative_l2_error": e})
         return w, dist, cum, kl
 
     try:
